@@ -106,6 +106,11 @@ static void finish_member(Rng &rng, Member &m, const std::string &path, const st
 		if (rng.chance(1, 4)) e.data.push_back(rng.byte());
 		m.ext.insert(m.ext.begin() + (long) rng.below(m.ext.size() + 1), e);
 	}
+	if (m.level >= 1 && rng.chance(1, 10)) {
+		// a name or path header repeated verbatim (legal; the later one replaces the earlier one)
+		for (size_t i = 0; i < m.ext.size(); ++i)
+			if (m.ext[i].type == 0x01 || m.ext[i].type == 0x02) { ExtHdr d = m.ext[i]; m.ext.push_back(d); break; }
+	}
 	if (m.level >= 1 && rng.chance(1, 5)) {
 		// an extended header type the library does not know
 		static const uint8_t unk[] = {0x39, 0x3f, 0x40, 0x7d, 0x7e, 0xff, 0x42};
